@@ -547,6 +547,16 @@ impl<'a, 'b, 'c> G<'a, 'b, 'c> {
                         }
                     }
                 }
+                // type aliases are imported like any other type, also under another name
+                for a in target.aliases.iter().filter(|a| a.1) {
+                    if self.c.chance(90) {
+                        let local = if self.c.chance(110) { format!("{}2", a.0) } else { a.0.clone() };
+                        if !tys.contains(&local) {
+                            tys.push(local.clone());
+                            unq.push((local, a.0.clone(), a.2, true));
+                        }
+                    }
+                }
                 imports.push(Import { module: k, accessor, unq, alias });
             }
             all.push(imports);
